@@ -286,6 +286,16 @@ Theorem C17_client_groups_any_order : forall e fl objs,
 Proof. exact client_groups_any_order. Qed.
 Print Assumptions C17_client_groups_any_order.
 
+(* several entities in one package (distinct entity names, no clash between message names):
+   the client shows one state entity per declaration, each the declared one, in order *)
+Theorem C17_client_groups_file : forall pkg (l : list (entity * list bytes)),
+  (forall p, In p l -> e_pkg (fst p) = pkg) ->
+  NoDup (map (fun p => snake_name (fst p)) l) ->
+  NoDup (map m_name (main_messages (file_components l))) ->
+  client_of pkg (file_components l) = Some (map (fun p => grouping_view (fst p)) l).
+Proof. exact client_groups_file. Qed.
+Print Assumptions C17_client_groups_file.
+
 (* the defect repaired by fix 2072988: with the pre-fix inference of findPSMOptions an object
    embedding the keys is a second KEYS candidate; for one visiting order the reported primary
    key is the declared one, for another it is empty *)
